@@ -1,7 +1,9 @@
 """C18 — stream IDs are strictly increasing and XRANGE returns what was added.
 Model: lean/RedisGoModel/Exec/{Core,Stream,Dispatch}.lean; theorems: lean/RedisGoModel/Props/C18.lean;
 tie: exec engine (server.Manager.ExecCommand + VerifDump hook, streams dumped as x:<id>=<fields>;…|last=<id>)."""
-from .. import core, execgen, execsuite, execgen_stream, concsuite
+import random
+
+from .. import core, execgen, execsuite, execgen_stream, concsuite, families
 
 
 def run(R, ctx):
@@ -9,6 +11,7 @@ def run(R, ctx):
         R, ctx, name="streams",
         gens=[(1, execgen_stream.stream_cmd)],
         nprog=(400, 6000), corpus="exec_c18",
+        extra_lines=families.large_container_programs(random.Random(R.seed * 131 + 18), 40 if R.tier == "quick" else 1000, "stream"),
         keys=[b"s1", b"S1", b"", b"\xff\x00 b"],
         what="XADD (explicit, sequence-less, ms-* and auto IDs from a colliding alphabet incl. 0-0, 2^63, 2^64-1 and IDs ahead of the clock; "
              "NOMKSTREAM, MAXLEN/MINID with =/~, LIMIT, damaged option lists and arity) and XRANGE (-, +, inclusive, exclusive and "
